@@ -579,13 +579,22 @@ impl<'a, T: QueryToRelationTranslator + Copy + Clone> VisitedQueryRelations<'a, 
                 .map(|(s, x)| (Expr::col(s.to_string()), x.clone()))
                 .collect();
             expr = expr.replace(columns).0;
-            let columns = group_by
-                .iter()
-                .filter_map(|x| {
-                    matches!(x, Expr::Column(_)).then_some((x.clone(), Expr::first(x.clone())))
-                })
-                .collect();
-            expr = expr.replace(columns).0;
+            // A GROUP BY column used outside of an aggregate stands for the value shared by the group;
+            // inside an aggregate (e.g. `HAVING COUNT(a) > 1` with `GROUP BY a`) it is the row value and is left alone
+            fn first_outside_aggregates(expr: &Expr, group_by: &[Expr]) -> Expr {
+                match expr {
+                    Expr::Column(_) if group_by.contains(expr) => Expr::first(expr.clone()),
+                    Expr::Function(f) => Expr::Function(crate::expr::Function::new(
+                        f.function(),
+                        f.arguments()
+                            .iter()
+                            .map(|a| Arc::new(first_outside_aggregates(a, group_by)))
+                            .collect(),
+                    )),
+                    _ => expr.clone(),
+                }
+            }
+            expr = first_outside_aggregates(&expr, &group_by);
             named_exprs.push((having_name.clone(), expr));
             Some(having_name)
         } else {
